@@ -33,7 +33,7 @@ class ExtractorBoom(Exception):
 
 
 def plan(tier, seed):
-    n = 1500 if tier == "quick" else 40000
+    n = 15000 if tier == "quick" else 150000
     specs = [{"part": "random", "seed": seed, "i": i, "tier": tier} for i in range(n)]
     names = sorted(excs.POOL)
     j = 0
